@@ -90,6 +90,8 @@ pub struct SimConfig {
     pub exec_cost_mean_gap: u32,
     /// cap for a single injected delay (stall / exec cost), ns
     pub max_delay_ns: u64,
+    /// cap for a single exec-cost event (charged to the global clock), ns
+    pub max_exec_cost_ns: u64,
 }
 
 impl Default for SimConfig {
@@ -104,6 +106,7 @@ impl Default for SimConfig {
             watchdog_real_ms: 120_000,
             exec_cost_mean_gap: 64,
             max_delay_ns: 2_000_000_000,
+            max_exec_cost_ns: 20_000_000,
         }
     }
 }
@@ -292,7 +295,9 @@ impl Core {
         self.now += self.cfg.step_cost_ns;
         if self.cfg.rate(Fk::ExecCost) > 0 {
             if self.next_cost_in == 0 {
-                let d = self.delay_magnitude();
+                // the cost is charged to the global clock (everybody is late by it): keep single
+                // events short, long pauses are what per-thread stalls are for
+                let d = self.delay_magnitude().min(self.cfg.max_exec_cost_ns);
                 self.now += d;
                 self.fired[Fk::ExecCost as usize] += 1;
                 self.next_cost_in = 1 + self.fault.draw(2 * self.cfg.exec_cost_mean_gap) as u64;
